@@ -407,7 +407,13 @@ class State:
 
     # ---------------------------------------------------------------- numeric facts
     def sym_bounds(self, sym):
-        return self.bounds.get(sym, (None, None))
+        b = self.bounds.get(sym, (None, None))
+        if sym == ("len0",) and b[0] is not None:
+            # distinct individuals occupy distinct pre-existing slots: the vector is at least as long as the number of slots named so far
+            m = sum(1 for r in self.nodes.values() if r.invec and not r.fresh)
+            if m > b[0]:
+                return (m, b[1])
+        return b
 
     def term_bounds(self, t):
         if t.sym is None:
